@@ -157,6 +157,7 @@ def run(c):
                "Definition cfg := the_cfg native_names.",
                "Definition fuel : nat := Z.to_nat 60000."]
         results = {}
+        scopes = {}
         if gen_ok:
             nsh = 14 if len(progs) >= 28 else max(1, len(progs) // 2)
             jobs = []
@@ -182,8 +183,12 @@ def run(c):
                 body = re.sub(r"\(\s+", "(", re.sub(r"\s+", " ", m.group(1)))
                 # entries: (i, (funs, calls, roots))
                 for em in re.finditer(r"\((\d+), \((\[[^\]]*\]), (\[[^\]]*\]), (\[[^\]]*\])\)\)", body):
-                    results[int(em.group(1))] = (parse_pairs(em.group(2)), parse_pairs(em.group(3)),
-                                                 [int(x) for x in re.findall(r"-?\d+", em.group(4))])
+                    tail = [int(x) for x in re.findall(r"-?\d+", em.group(4))]
+                    roots, scope = tail, 0
+                    if len(tail) >= 2 and tail[-2] == -1:
+                        roots, scope = tail[:-2], tail[-1]
+                    results[int(em.group(1))] = (parse_pairs(em.group(2)), parse_pairs(em.group(3)), roots)
+                    scopes[int(em.group(1))] = scope
             for p in progs:
                 if p["i"] not in results and gen_ok:
                     c.obligation("coq-eval-missing:prog%d" % p["i"], False, "no result parsed")
@@ -225,6 +230,8 @@ def run(c):
                     finding = KNOWN_LOGIC
             c.fail("oracle", "quasigo result differs from the Go toolchain", input=inp, expected=cobs["oracle"], observed=cobs["res"],
                    finding=finding)
+        c.coverage["programs_in_theorem_scope"] = c.coverage.get("programs_in_theorem_scope", 0) + sum(1 for v in scopes.values() if v == 1)
+        c.coverage["programs_compiled"] = c.coverage.get("programs_compiled", 0) + sum(1 for p in progs if not p.get("compile_err"))
         c.coverage["model_vs_impl_calls"] = c.coverage.get("model_vs_impl_calls", 0) + n_model_calls
         c.coverage["bytecode_equal_functions"] = c.coverage.get("bytecode_equal_functions", 0) + sum(len(p.get("dumps") or []) for p in progs if p["i"] in results)
         c.coverage["oracle_vs_impl_calls"] = c.coverage.get("oracle_vs_impl_calls", 0) + sum(1 for p in progs for x in (p.get("calls") or []) if x.get("oracle"))
